@@ -1,1 +1,270 @@
-(* C09 stub: to be written *)
+(* C09 -- properties of the PURE model of the API (Model/Purity.v).
+   These are theorems about the model: memory aliasing and process state are outside Gallina; the
+   history correspondence (props/c09.py) checks that the implementation behaves like this model. *)
+From Coq Require Import List ZArith Lia Bool Arith.
+From EPG Require Import Scalar QI State Ops Diff Purity.
+Import ListNotations.
+
+Section PurityProofs.
+Variable S : ScalOps.
+Notation store := (store S).
+Notation value := (value S).
+
+(* ---- list update ---- *)
+Lemma length_upd {A} k (v : A) l : length (upd k v l) = length l.
+Proof. revert k; induction l as [|x l IH]; intros [|k]; simpl; auto. Qed.
+
+Lemma nth_upd_other {A} k j (v d : A) l : k <> j -> nth j (upd k v l) d = nth j l d.
+Proof.
+  revert k j; induction l as [|x l IH]; intros [|k] [|j] H; simpl; auto; try lia.
+  all: try (apply IH; lia).
+Qed.
+
+Lemma nth_upd_same {A} k (v d : A) l : k < length l -> nth k (upd k v l) d = v.
+Proof.
+  revert k; induction l as [|x l IH]; intros [|k] H; simpl in *; auto; try lia.
+  all: try (apply IH; lia).
+Qed.
+
+(* ---- one call ---- *)
+Lemma sem_result (st : store) c : snd (sem st c) = result st c.
+Proof. unfold sem. destruct (inplace_target st c); reflexivity. Qed.
+
+Lemma sem_length (st : store) c : length (fst (sem st c)) = Datatypes.S (length st).
+Proof.
+  unfold sem. destruct (inplace_target st c); simpl; rewrite app_length; simpl.
+  - rewrite length_upd. lia.
+  - lia.
+Qed.
+
+Lemma out_of_place_no_target (st : store) c : out_of_place c = true -> inplace_target st c = None.
+Proof. destruct c as [o s [|]| | | | |]; simpl; auto; discriminate. Qed.
+
+(* frame: a call changes at most the entry it is entitled to change *)
+Lemma store_frame_step (st : store) c k :
+  k < length st -> inplace_target st c <> Some k -> look (fst (sem st c)) k = look st k.
+Proof.
+  intros Hk Ht. unfold sem, look. destruct (inplace_target st c) as [s|] eqn:E; simpl.
+  - rewrite app_nth1 by (rewrite length_upd; exact Hk).
+    apply nth_upd_other. intro; subst; apply Ht; reflexivity.
+  - now rewrite app_nth1.
+Qed.
+
+Lemma store_monotone_step (st : store) c k :
+  out_of_place c = true -> k < length st -> look (fst (sem st c)) k = look st k.
+Proof.
+  intros Ho Hk. apply store_frame_step; auto. rewrite out_of_place_no_target by exact Ho. discriminate.
+Qed.
+
+(* the new entry: the result, unless the call was an in-place application (placeholder) *)
+Lemma sem_new_entry (st : store) c :
+  out_of_place c = true -> look (fst (sem st c)) (length st) = result st c.
+Proof.
+  intros Ho. unfold sem, look. rewrite out_of_place_no_target by exact Ho. simpl.
+  rewrite app_nth2 by lia. now rewrite Nat.sub_diag.
+Qed.
+
+Lemma run_hist_cons (st : store) c h :
+  run_hist st (c :: h) =
+  (fst (run_hist (fst (sem st c)) h), snd (sem st c) :: snd (run_hist (fst (sem st c)) h)).
+Proof.
+  simpl. destruct (sem st c) as [st' v]. simpl. destruct (run_hist st' h); reflexivity.
+Qed.
+
+Lemma run_hist_length (st : store) h : length (fst (run_hist st h)) = length st + length h.
+Proof.
+  revert st; induction h as [|c h IH]; intros st.
+  - simpl. lia.
+  - rewrite run_hist_cons. simpl fst. rewrite IH, sem_length. simpl. lia.
+Qed.
+
+(* ---- store_monotone: out-of-place calls never change an existing entry, for every history ---- *)
+Theorem store_monotone (st : store) (h : history) k :
+  forallb out_of_place h = true -> k < length st ->
+  look (fst (run_hist st h)) k = look st k.
+Proof.
+  revert st; induction h as [|c h IH]; intros st Hh Hk; [reflexivity|].
+  simpl in Hh. apply andb_true_iff in Hh as [Hc Hh].
+  rewrite run_hist_cons. simpl fst. rewrite IH; auto.
+  - apply store_monotone_step; auto.
+  - rewrite sem_length. lia.
+Qed.
+
+(* with in-place calls in the history: every entry that is not the state-matrix argument of an
+   in-place application is unchanged; in particular operators, probes, sequences and recorded
+   results (all the non-state-matrix values) are never changed by ANY history *)
+Theorem nonsm_immutable (st : store) (h : history) k :
+  k < length st -> is_sm (look st k) = false ->
+  look (fst (run_hist st h)) k = look st k.
+Proof.
+  revert st; induction h as [|c h IH]; intros st Hk Hv; [reflexivity|].
+  rewrite run_hist_cons. simpl fst.
+  assert (E : look (fst (sem st c)) k = look st k).
+  { apply store_frame_step; auto. intro Ht.
+    destruct c as [o s [|]| | | | |]; try discriminate Ht.
+    unfold inplace_target in Ht.
+    destruct (is_sm (result st (CApply o s true)) && is_sm (look st s)) eqn:B; try discriminate Ht.
+    apply andb_true_iff in B as [_ B]. injection Ht as Ht. rewrite Ht in B. rewrite B in Hv. discriminate Hv. }
+  rewrite IH.
+  - exact E.
+  - rewrite sem_length. lia.
+  - now rewrite E.
+Qed.
+
+(* ---- history_independent: the result of a call is a function of its argument values ---- *)
+Theorem history_independent_step (st1 st2 : store) c :
+  (forall r, In r (refs c) -> look st1 r = look st2 r) ->
+  snd (sem st1 c) = snd (sem st2 c).
+Proof.
+  intros H. rewrite !sem_result. unfold result. f_equal. now apply map_ext_in.
+Qed.
+
+(* whatever two histories did before, if they left equal values at the referenced indices *)
+Theorem history_independent (st1 st2 : store) (h1 h2 : history) c :
+  (forall r, In r (refs c) -> look (fst (run_hist st1 h1)) r = look (fst (run_hist st2 h2)) r) ->
+  snd (sem (fst (run_hist st1 h1)) c) = snd (sem (fst (run_hist st2 h2)) c).
+Proof. apply history_independent_step. Qed.
+
+(* after any out-of-place history, a call on earlier values returns what it would have returned before *)
+Theorem history_independent_after (st : store) (h : history) c :
+  forallb out_of_place h = true -> (forall r, In r (refs c) -> r < length st) ->
+  snd (sem (fst (run_hist st h)) c) = snd (sem st c).
+Proof.
+  intros Hh Hr. apply history_independent_step. intros r Hin. apply store_monotone; auto.
+Qed.
+
+(* ---- reuse_equals_fresh ---- *)
+(* using the operator stored at r or any other entry holding an equal value gives the same result *)
+Theorem reuse_equals_fresh_apply (st : store) r r' s inplace :
+  look st r = look st r' ->
+  result st (CApply r s inplace) = result st (CApply r' s inplace).
+Proof. intros H. unfold result. simpl. now rewrite H. Qed.
+
+(* a sequence that uses one instance at several positions equals the sequence of fresh equal instances *)
+Theorem reuse_equals_fresh_seq (st : store) (l l' : list nat) :
+  map (look st) l = map (look st) l' ->
+  result st (CMkSeq l) = result st (CMkSeq l').
+Proof. intros H. unfold result. simpl. now rewrite H. Qed.
+
+Theorem reuse_equals_fresh_simulate (st : store) q q' i n p :
+  look st q = look st q' ->
+  result st (CSimulate q i n p) = result st (CSimulate q' i n p).
+Proof. intros H. unfold result. simpl. rewrite H. destruct i, p; reflexivity. Qed.
+
+(* ---- repeated calls ---- *)
+Theorem repeat_call (st : store) (h : history) c :
+  out_of_place c = true -> forallb out_of_place h = true ->
+  (forall r, In r (refs c) -> r < length st) ->
+  snd (sem (fst (run_hist (fst (sem st c)) h)) c) = snd (sem st c)
+  /\ forall k, k < length st -> look (fst (run_hist (fst (sem st c)) h)) k = look st k.
+Proof.
+  intros Hc Hh Hr. split.
+  - apply history_independent_step. intros r Hin.
+    rewrite store_monotone; auto.
+    + apply store_monotone_step; auto.
+    + rewrite sem_length. specialize (Hr r Hin). lia.
+  - intros k Hk. rewrite store_monotone; auto.
+    + apply store_monotone_step; auto.
+    + rewrite sem_length. lia.
+Qed.
+
+Theorem simulate_idempotent (st : store) (h : history) q i n p :
+  forallb out_of_place h = true ->
+  (forall r, In r (refs (CSimulate q i n p)) -> r < length st) ->
+  let c := CSimulate q i n p in
+  snd (sem (fst (run_hist (fst (sem st c)) h)) c) = snd (sem st c)
+  /\ forall k, k < length st -> look (fst (run_hist (fst (sem st c)) h)) k = look st k.
+Proof. intros Hh Hr c. apply repeat_call; auto. Qed.
+
+(* ---- probe_snapshot: a recorded value is unaffected by ANY later call (in place or not) ---- *)
+Theorem result_snapshot (st : store) (h : history) c :
+  out_of_place c = true -> is_sm (result st c) = false ->
+  look (fst (run_hist (fst (sem st c)) h)) (length st) = result st c.
+Proof.
+  intros Hc Hv. rewrite nonsm_immutable.
+  - apply sem_new_entry; auto.
+  - rewrite sem_length. lia.
+  - rewrite sem_new_entry; auto.
+Qed.
+
+Lemma acquire_not_sm (st : store) p s : is_sm (result st (CAcquire p s)) = false.
+Proof.
+  unfold result. simpl. destruct (look st p); simpl; auto. destruct (look st s); reflexivity.
+Qed.
+
+Lemma simulate_not_sm (st : store) q i n p : is_sm (result st (CSimulate q i n p)) = false.
+Proof.
+  assert (G : forall vq vi vp, is_sm (@simulate_value S vq vi n vp) = false).
+  { intros vq vi vp. unfold simulate_value.
+    destruct vq; try reflexivity; destruct vi as [[]|]; destruct vp as [[]|]; reflexivity. }
+  unfold result. simpl. destruct i, p; simpl; apply G.
+Qed.
+
+Theorem probe_snapshot (st : store) (h : history) p s :
+  look (fst (run_hist (fst (sem st (CAcquire p s))) h)) (length st) = result st (CAcquire p s).
+Proof. apply result_snapshot; [reflexivity | apply acquire_not_sm]. Qed.
+
+Theorem simulate_snapshot (st : store) (h : history) q i n p :
+  look (fst (run_hist (fst (sem st (CSimulate q i n p))) h)) (length st) = result st (CSimulate q i n p).
+Proof. apply result_snapshot; [reflexivity | apply simulate_not_sm]. Qed.
+
+(* ---- in place vs out of place ---- *)
+(* a differentiable operator (T, E, P, R, S, ScalarOp, MatrixOp): one semantics, [dstep] *)
+Theorem inplace_equals_outofplace_diffop (o : dop S) (vs : value) :
+  apply_value (VOp (DOp o)) vs true = apply_value (VOp (DOp o)) vs false.
+Proof. destruct vs; reflexivity. Qed.
+
+Lemma drop_partials_id (d : dstate S) : d_p1 d = [] -> d_p2 d = [] -> drop_partials d = d.
+Proof. destruct d; simpl; intros -> ->; reflexivity. Qed.
+
+(* any operator, on a state matrix that carries no partials *)
+Theorem inplace_equals_outofplace_nopartials (vo : value) (s : smval S) :
+  d_p1 (sv_d s) = [] -> d_p2 (sv_d s) = [] ->
+  apply_value vo (VSm s) true = apply_value vo (VSm s) false.
+Proof.
+  intros H1 H2. destruct vo; try reflexivity; simpl.
+  - destruct i; [reflexivity|]. unfold apply_in, apply_out. now rewrite drop_partials_id.
+  - unfold multi_in, multi_out. now rewrite H1, H2.
+Qed.
+
+(* any operator, any state matrix: the zeroth-order state never depends on the mode *)
+Definition main_of (v : value) : option (sm S) :=
+  match v with VSm s => Some (d_main (sv_d s)) | _ => None end.
+Theorem inplace_equals_outofplace_main (vo vs : value) :
+  main_of (apply_value vo vs true) = main_of (apply_value vo vs false).
+Proof.
+  destruct vo; try reflexivity; destruct vs; try reflexivity; simpl.
+  - destruct i; [reflexivity|]. unfold apply_in, apply_out.
+    destruct (with_nmax (sv_nmax s) (DPlain o)); reflexivity.
+Qed.
+
+End PurityProofs.
+
+(* the full statement "in place = out of place" is FALSE for the code that exists: a non-differentiable
+   operator applied out of place returns a state matrix WITHOUT the partials of its input
+   (Operator.prepare -> StateMatrix.copy has no order1/order2), in place it keeps them (untouched).
+   Witness over the executable instance: SPOILER on a state carrying one first-order partial. *)
+Definition wit_sm : sm QIops := init k1.
+Definition wit_val : value QIops := VSm (mkSmv (mkD wit_sm [(0%nat, wit_sm)] [] true) None).
+Definition npartials (v : value QIops) : nat :=
+  match v with VSm s => length (d_p1 (sv_d s)) | _ => 0 end.
+Theorem inplace_equals_outofplace_refuted :
+  exists (vo vs : value QIops), apply_value vo vs true <> apply_value vo vs false.
+Proof.
+  exists (VOp (DPlain OSpoil)), wit_val. intro H. apply (f_equal npartials) in H.
+  vm_compute in H. discriminate H.
+Qed.
+
+(* non-vacuity: a small history evaluates, the repeated simulate gives the same non-trivial value *)
+Definition ex_rot : mat3 QIops :=
+  @mkM QIops (@mk3 QIops (qr 1 2) (qr 1 2) (qr 1 1)) (@mk3 QIops (qr 1 2) (qr 1 2) (qr 1 1))
+             (@mk3 QIops (qr (-1) 2) (qr (-1) 2) (qr 0 1)).
+Definition ex_store : list (value QIops) :=
+  [VOp (DOp (mkDop (LMatrix ex_rot None) [] [] [] [] true [])); VProbe PF0;
+   VSm (mkSmv (dinit (init k1)) None)].
+Definition ex_hist : history :=
+  [CMkSeq [0; 1]%nat; CSimulate 3 (Some 2%nat) None None; CApply 0 2 false; CSimulate 3 (Some 2%nat) None None].
+Lemma purity_example :
+  @hist_ok QIops ex_store ex_hist [ObNone; ObRes [[qr 1 1 : QIops]]; ObNone; ObRes [[qr 1 1 : QIops]]]
+          [(2%nat, ObSm (init k1) [] [])] = true.
+Proof. vm_compute. reflexivity. Qed.
